@@ -14,7 +14,7 @@ CHECKS = {
     "C02": dict(
         technique="property-based testing (rapid), differential oracle: one rewrite-biased generated source compiled as Optimize(true)+ConstExpr marks / Optimize(true) / Optimize(false) and run on generated environments; results compared with Equiv; compile-time rejections judged against a reference constant evaluator",
         text="Exploration: generated well-typed expressions biased to the five optimiser rewrites (constant arithmetic at any depth incl. call arguments and overflow, literal arrays, membership in literal arrays/ranges with left operands of every admitted static type, constant ranges of size 0/1/descending/1e3/around 1e6, pure calls under drawn ConstExpr marks incl. variadic nil arguments, operator overloads on built-in types) plus a control group; the three programs must all fail or all return equal values on each environment value; the optimiser may reject only constant integer division/modulo by zero; a ConstExpr mark may only move a failing constant call to compile time.",
-        note="Trusted: Equiv, the constant evaluator core/constfold.go, purity of the harness functions. Budget failures on one side only are incomparable (counted). Open findings F09 (in-range rewrite ignores operand type) and F26 (int type claimed for arithmetic with a dynamic operand) are excluded by construction and replayed.",
+        note="Trusted: Equiv, the constant evaluator core/constfold.go, purity of the harness functions. Budget failures on one side only are incomparable (counted). Open finding F26 (int type claimed for arithmetic with a dynamically typed operand) is excluded by construction and replayed; the repaired findings F09-F11, F29, F32-F35 are re-judged from replay files on every run.",
         ref="4/C02"),
     "C03": dict(
         technique="property-based testing (rapid): (sound) accepted generated programs are run and each failure is classified by the independent reference evaluator, each success compared with the type checker.Check reported; (reject) single-fault mutation of well-typed generated programs at drawn positions must be rejected by Compile",
@@ -34,7 +34,7 @@ CHECKS = {
     "C15": dict(
         technique="property-based testing (rapid), differential oracle across configurations: one generated source evaluated by Eval and by 14 compile variants ({no Env, Env(struct), Env(*struct), Env(map)} x AllowUndefinedVariables x Optimize), each run on struct / pointer / map twins of one generated environment value; all succeeding results must be Equiv",
         text="Exploration: for each generated expression (C01 generator, rewrite-biased generator, expressions with several fast calls, 10% with a name the environment lacks) and environment value up to 45 (variant, environment representation) results are computed; every pair that succeeds must agree, so type information (specialised equality, map fetch, fast calls, re-typed literals, optimiser rewrites enabled by static types) may only add rejections. No reference model is involved.",
-        note="Trusted: Equiv; the struct/pointer/map twins built by the harness hold the same members. Failing variants are not compared. Known-finding regions that make succeeding variants disagree on the unchanged tree (F09 in-range rewrite, F12 sequence equality, F19 argument re-typing) are excluded by construction and counted.",
+        note="Trusted: Equiv; the struct/pointer/map twins built by the harness hold the same members. Failing variants are not compared. The region of open finding F19 (argument re-typing), which makes succeeding variants disagree on the unchanged tree, is excluded by construction and counted.",
         ref="4/C15"),
     "C06": dict(
         technique="property-based testing (rapid): generator of allocating expressions; reference model = allocation ledger of the independent evaluator; budget drawn relative to the computed total (A-1, A, A+1, ...)",
@@ -103,6 +103,21 @@ NOT_YET = {}
 ALL = ["C%02d" % i for i in range(1, 19)]
 
 
+# sentences appended to the exploration text of a check (later extensions of the generators and oracles)
+EXTRA = {
+    "C01": "Also generated: access paths into less common Go shapes (named slice / map types, int-keyed maps, maps of structs, of pointers and of maps, arrays of structs, byte slices, runes, an interface-typed field, time.Duration) whose value an oracle computes directly in Go; NaN, infinities and signed zeros as operand values; patterns built by constant concatenation; every documented spelling of a literal (leading zeros, digit separators, exponent and leading-dot floats, single quotes, \\u escapes); result directives incl. over dynamically typed operands.",
+    "C02": "Also generated: nil-able needles of literal-array membership (nil-safe chains, conditionals with a nil branch), ConstExpr calls with nil arguments, nil results and results that cannot be map keys, array literals passed to a []interface{} parameter, patterns that only folding turns into a (possibly invalid) literal inside unevaluated branches, `#` of an outer closure used after an inner builtin, signed zeros and NaN.",
+    "C03": "A directed stream adds roots whose static type is exactly int64 / float64 but whose value can be nil (nil-safe chains, conditionals with a nil branch) under the matching directive, and comparisons of an integer with `lit ** lit`.",
+    "C04": "Sources are also laid out over several lines after lines holding multi-byte characters, so that errors are located and their snippets cut out beyond the first line.",
+    "C06": "The budget in force while the program is COMPILED is drawn independently of the one in force at the run (tiny, raised, same, default); ranges with literal bounds around the optimiser's preallocation limit are judged by the metamorphic relation 'the outcome of a run depends on the run-time budget only'.",
+    "C08": "The fixed program list includes patterns known at run time only and sources of several lines that fail at run time beyond the first line.",
+    "C13": "Run-time failures are also provoked inside a function that overloads the failing operator (the error is still the operator's), and a long-lived *file.Source is re-loaded through its JSON decoding and must render every line and every bound error like a fresh one.",
+    "C14": "The float grids include NaN, +Inf, -Inf and -0; every comparison is also evaluated under `not` / `!` and must be the negation of its own result.",
+    "C15": "A directed stream draws membership in literal arrays whose left operand the checker types int / string although a dynamically typed operand takes part (value of another kind, non-integral float, nil).",
+    "C16": "The catalogue includes an environment of a named map type whose underlying type is map[string]interface{}.",
+    "C17": "Overloaded operators also stand in computed keys of map literals and compare with a literal nil against a candidate with interface{} parameters.",
+}
+
 def main():
     checks = []
     for pid in ALL:
@@ -116,7 +131,7 @@ def main():
             evidence_file="evidence/%s.json" % pid,
             replay_cmd_template="./check %s --replay {path}" % pid,
             engine="harness",
-            level_claimed=dict(category="exploration", text=c["text"], design_ref="DESIGN.md section " + c["ref"]),
+            level_claimed=dict(category="exploration", text=c["text"] + (" " + EXTRA[pid] if pid in EXTRA else ""), design_ref="DESIGN.md section " + c["ref"]),
             level_note=c["note"],
             technique=c["technique"],
         ))
